@@ -340,9 +340,42 @@ def r4(ctx) -> None:
     ctx.ob("C17-R4", "netcdf/writes-target", ok, nc, cs[0] if cs else nc.node, "netCDF datasets are written to the requested file")
 
 
+def r2_loaders(ctx) -> None:
+    """Every load dispatcher stamps the object with the path it was loaded from, unconditionally; every parameter file of a
+    result is written with the same, complete, set of columns."""
+    repo = ctx.repo
+    PIO_ = "glotaran/plugin_system/project_io_registration.py"
+    DIO_ = "glotaran/plugin_system/data_io_registration.py"
+    n = 0
+    for rel, name in ((DIO_, "load_dataset"), (PIO_, "load_model"), (PIO_, "load_parameters"), (PIO_, "load_scheme"), (PIO_, "load_result")):
+        fi = ctx.fn(rel, name)
+        path_p = fi.params()[0]
+        cfg = lib.cfg(fi)
+        stamps = []
+        for t, s in lib.stores(fi):
+            if (isinstance(t, ast.Attribute) and t.attr == "source_path") or (isinstance(t, ast.Subscript) and lib.const_str(t.slice) == "source_path"):
+                stamps.append((t, s))
+        n += len(stamps)
+        ok = len(stamps) == 1 and norm(stamps[0][1].value) in (f"Path({path_p}).as_posix()", f"Path({path_p}).resolve().as_posix()") \
+            and not cfg.exists_path(cfg.entry, cfg.exit, avoid=[stamps[0][1]], exc=False)
+        ctx.ob("C17-R2", f"{name}/stamps-source-path", ok, fi, stamps[0][1] if stamps else fi.node,
+               "whatever a plugin returns, the loaded object's source_path is the path it was just loaded from: netCDF stores the attributes "
+               "of the moment of writing, so a kept old source_path makes later scheme/result files point at another file",
+               construct=lib.short(stamps[0][1], 100) if stamps else "def " + name)
+    ctx.sites("C17-R2", "source_path stamps in load dispatchers", n, 5)
+    sr = ctx.fn(FLD, "FolderProjectIo.save_result")
+    pcalls = [c for c in lib.calls(sr) if norm(c.func) == "save_parameters"]
+    ctx.sites("C17-R2", "parameter files written by the folder plugin", len(pcalls), 2)
+    kws = [tuple(sorted((k.arg, norm(k.value)) for k in c.keywords if k.arg not in (None,))) for c in pcalls]
+    ok = len(set(kws)) == 1 and all({k for k, _ in kw} <= {"format_name", "allow_overwrite", "update_source_path"} for kw in kws)
+    ctx.ob("C17-R2", "FolderProjectIo.save_result/parameter-files-written-alike", ok, sr, pcalls[0] if pcalls else sr.node,
+           "initial and optimized parameters are written with the same options and none that drops columns: the initial parameters of a "
+           "chained fit carry standard errors too", [f"{norm(c.args[0]) if c.args else '?'}: {kw}" for c, kw in zip(pcalls, kws)])
+
+
 def check(ctx) -> None:
     for g in check.groups:
         g(ctx)
 
 
-check.groups = [r1, r2, r3, r4]
+check.groups = [r1, r2, r3, r4, r2_loaders]
